@@ -10,7 +10,7 @@ from common import Driver, DriverFailure
 
 LEVEL = "proof"
 MANIFEST = dict(
-    text="Lean 4 theorems over exact rationals on definitions translated from accessor.py / heater.py on every run (the four  Session 4: heater states keep the user setpoint (SetpointG) on the other side of the current temperature than the regulated target (RealSetPointG), so a heater reading the wrong word shows in real_target_temperature and in the operation ladder."
+    text="Lean 4 theorems over exact rationals on definitions translated from accessor.py / heater.py on every run (the four "
          "conversion expressions with the branch on \"C\" and int() truncation, the unit symbols, MIN/MAX, temperature_unit/min_temp/"
          "max_temp and the current_operation ladder): presented value = raw/18 or (raw+320)/10; write(read raw) = raw for ALL raw : Nat "
          "and every unit string; any temperature lands strictly within one device step (and on the greatest device value below it from "
@@ -21,7 +21,7 @@ MANIFEST = dict(
          "one step + 1e-9. Exact read-back through CPython's real floats is NOT a theorem: it is closed by enumerating all 65 536 words "
          "x 2 units on the real accessor on every run (both write paths). Tie: translator + differential correspondence on the real "
          "GeckoTempStructAccessor (floats converted to exact Fractions, model rationals compared as num/den) and the real "
-         "GeckoWaterHeater on stub spas of shipped cfg/log pairs.",
+         "GeckoWaterHeater on stub spas of shipped cfg/log pairs. Session 4: heater states keep the user setpoint (SetpointG) on the other side of the current temperature than the regulated target (RealSetPointG), so a heater reading the wrong word shows in real_target_temperature and in the operation ladder.",
     note="Trusted: Lean kernel; the translator (harness/gen_c14.py over py2lean; float literal -> exact value of the double, float op -> "
          "fl(...)); the correspondence harness. Assumed in float_bridge only: rounding is monotone with relative error <= 2^-52 in the "
          "range used (no underflow/overflow). int -> double conversion of a stored word is exact (< 2^53). A flag that exists but is off "
